@@ -20,7 +20,7 @@ CONSTANTS MaxOps,        \* history depth
           Sizes,         \* size arguments of fill / pack (-1 = None)
           Labels,        \* labels the environment may assign
           Targets,       \* receivers of mutating operations
-          TaxonSets      \* taxa arguments of remove / discard / keep
+          TaxonSeqs      \* taxa arguments of remove / discard / keep: sequences, repeats allowed
 VARIABLES mats, nops
 vars == <<mats, nops>>
 
@@ -36,8 +36,10 @@ IndexSetsFull == (SUBSET {0, 1, 2}) \cup {{1, 3, 4}, {0, 5, 9}}
 IndexSetsSmall == {{}, {1}, {0, 2}, {0, 1, 2}, {1, 3, 4}}
 SizesFull == {-1, 2, 4}
 SizesSmall == {-1, 2}
-TaxonSetsFull == SUBSET {1, 2, 3}
-TaxonSetsSmall == {{}, {2}, {1, 3}, {1, 2, 3}}
+\* every list of at most two taxa (repeats included), and lists of three with and without repeats
+TaxonSeqsFull == {<<>>} \cup UNION {[1..n -> {1, 2, 3}] : n \in 1..2}
+                 \cup {<<1, 2, 3>>, <<3, 1, 2>>, <<1, 1, 2>>, <<1, 2, 1>>, <<2, 3, 3>>, <<3, 1, 3>>, <<2, 2, 2>>}
+TaxonSeqsSmall == {<<>>, <<2>>, <<1, 3>>, <<3, 1>>, <<1, 2, 3>>, <<1, 1, 2>>, <<2, 3, 2>>, <<3, 3>>}
 
 NsTaxa(n) == IF n = 1 THEN {1, 2, 3} ELSE {4, 5, 6}
 PadValue == 0
@@ -95,7 +97,7 @@ ReplaceSequences(i, j) == Step /\ Pair(i, j) /\ SetSelf(i, OpReplaceSequences(ma
 UpdateSequences(i, j) == Step /\ Pair(i, j) /\ SetSelf(i, OpUpdateSequences(mats[i], mats[j]))
 ExtendSequences(i, j, fl) == Step /\ Pair(i, j) /\ SetSelf(i, OpExtendSequences(mats[i], mats[j], fl))
 ExtendMatrix(i, j) == Step /\ Pair(i, j) /\ SetSelf(i, OpExtendMatrix(mats[i], mats[j]))
-RemoveSequences(i, T) == Step /\ Has(i) /\ SetSelf(i, OpRemoveSequences(mats[i], CmSorted(T)))
+RemoveSequences(i, T) == Step /\ Has(i) /\ SetSelf(i, OpRemoveSequences(mats[i], T))
 DiscardSequences(i, T) == Step /\ Has(i) /\ SetSelf(i, OpDiscardSequences(mats[i], T))
 KeepSequences(i, T) == Step /\ Has(i) /\ SetSelf(i, OpKeepSequences(mats[i], T))
 NewSequence(i, t, v) == Step /\ Has(i) /\ OpNewSequence(mats[i], NsT(i), t, v).raised = "" /\ SetSelf(i, OpNewSequence(mats[i], NsT(i), t, v))
@@ -115,9 +117,9 @@ Next == \/ \E L \in ConcatLists : Concatenate(L)
         \/ \E i \in Targets, j \in Slots : UpdateSequences(i, j)
         \/ \E i \in Targets, j \in Slots, fl \in BOOLEAN : ExtendSequences(i, j, fl)
         \/ \E i \in Targets, j \in Slots : ExtendMatrix(i, j)
-        \/ \E i \in Targets, T \in TaxonSets : RemoveSequences(i, T)
-        \/ \E i \in Targets, T \in TaxonSets : DiscardSequences(i, T)
-        \/ \E i \in Targets, T \in TaxonSets : KeepSequences(i, T)
+        \/ \E i \in Targets, T \in TaxonSeqs : RemoveSequences(i, T)
+        \/ \E i \in Targets, T \in TaxonSeqs : DiscardSequences(i, T)
+        \/ \E i \in Targets, T \in TaxonSeqs : KeepSequences(i, T)
         \/ \E i \in Targets, t \in 1..3, v \in NewVals : NewSequence(i, t, v)
         \/ \E i \in Targets, t \in 1..3, v \in NewVals : SetItem(i, t, v)
         \/ \E i \in Targets, t \in 1..3 : DelItem(i, t)
@@ -178,11 +180,16 @@ RowsExact ==
            /\ RowsFrom(OpExtendSequences(a, b, FALSE).self, A \ B, {}, A \cap B, a, b)
            /\ RowsFrom(OpExtendSequences(a, b, TRUE).self, A \ B, B \ A, A \cap B, a, b)
            /\ RowsFrom(OpExtendMatrix(a, b).self, A \ B, B \ A, A \cap B, a, b)
-      /\ \A T \in TaxonSets :
-           /\ RowsFrom(OpDiscardSequences(a, T).self, A \ T, {}, {}, a, a)
-           /\ RowsFrom(OpKeepSequences(a, T).self, A \cap T, {}, {}, a, a)
-           /\ (T \subseteq A => OpRemoveSequences(a, CmSorted(T)).raised = "" /\ RowsFrom(OpRemoveSequences(a, CmSorted(T)).self, A \ T, {}, {}, a, a))
-           /\ (~(T \subseteq A) => OpRemoveSequences(a, CmSorted(T)).raised = "KeyError")
+      /\ \A ts \in TaxonSeqs :
+           LET T == CmSeqToSet(ts)  repeats == Cardinality(CmSeqToSet(ts)) # Len(ts) IN
+           \* discard / keep tolerate absent and repeated taxa: exactly the named rows go / stay, never an error
+           /\ OpDiscardSequences(a, ts).raised = "" /\ RowsFrom(OpDiscardSequences(a, ts).self, A \ T, {}, {}, a, a)
+           /\ OpKeepSequences(a, ts).raised = "" /\ RowsFrom(OpKeepSequences(a, ts).self, A \cap T, {}, {}, a, a)
+           \* remove: the documented KeyError when some named taxon has no row at its turn
+           /\ ((T \subseteq A /\ ~repeats) => OpRemoveSequences(a, ts).raised = "" /\ RowsFrom(OpRemoveSequences(a, ts).self, A \ T, {}, {}, a, a))
+           /\ ((~(T \subseteq A) \/ repeats) =>
+                  LET r == OpRemoveSequences(a, ts) IN
+                  r.raised = "KeyError" /\ A \ T \subseteq Taxa(r.self) /\ Taxa(r.self) \subseteq A /\ \A t \in Taxa(r.self) : r.self.rows[t] = a.rows[t])
       /\ \A t \in 1..3, v \in NewVals :
            LET b == [a EXCEPT !.rows = (t :> v)] IN
            /\ (t \in NsT(i) \ A => RowsFrom(OpNewSequence(a, NsT(i), t, v).self, A, {t}, {}, a, b))
